@@ -68,6 +68,9 @@ Definition np_select_frames (idx : list nat) (b : body) : result body :=
 Definition t_select_frames (idx : list nat) (b : body) : result body :=
   if all_lt (dimn (shape (bdat b)) 0) idx
   then Ok (t_ctor (take0 dcell idx (bdat b)) (take0 (zero O) idx (bconf b))) else Err Index.
+(* tf.gather(tensor, []) : an empty Python list becomes a float32 index tensor, which gather rejects *)
+Definition tf_select_frames (idx : list nat) (b : body) : result body :=
+  match idx with [] => Err Type_ | _ => t_select_frames idx b end.
 
 (* ---- linear transforms ------------------------------------------------------------------------------------- *)
 (* flip (numpy/pose_body.py:210-228): data * vec, vec = ones(D) with vec[axis] = -1 *)
@@ -170,13 +173,16 @@ Definition np_focus (b : body) : result (body * list T) :=
 (* ---- bounding boxes (numpy/pose_body.py:264-299), two-dimensional data ----------------------------------- *)
 Fixpoint offsets (o : nat) (comps : list nat) : list (nat * nat) :=
   match comps with [] => [] | n :: r => (o, n) :: offsets (o + n) r end.
+(* one component: its points (rows on .. on+n of the points perspective) reduced by ma.min and ma.max over axis 0 *)
+Definition comp_box (blk : nat) (tr : list cell) (on : nat * nat) : list cell :=
+  let sub := tab (snd on * blk) (fun k => rd tr (fst on * blk + k)) in
+  red_lead O (snd on) blk (mmin O E) sub ++ red_lead O (snd on) blk (mmax O E) sub.
 Definition np_bbox (comps : list nat) (b : body) : result body :=
   let s := shape (bdat b) in
   let F := dimn s 0 in let P := dimn s 1 in let D := dimn s 3 in
   let blk := P * F * D in
   let tr := data (transpose dcell POINTS_DIMS (bdat b)) in
-  let boxes := flat_map (fun on => let sub := tab (snd on * blk) (fun k => rd tr (fst on * blk + k)) in
-                   red_lead O (snd on) blk (mmin O E) sub ++ red_lead O (snd on) blk (mmax O E) sub) (offsets 0 comps) in
+  let boxes := flat_map (comp_box blk tr) (offsets 0 comps) in
   let nb := 2 * length comps in
   let new_data := transpose dcell POINTS_DIMS (mkT [nb; P; F; D] boxes) in
   if negb (Nat.eqb D 2) then Err Value            (* np.squeeze(split(mask,[-1],3)[0], -1) needs D - 1 = 1 (F11) *)
@@ -188,7 +194,8 @@ Definition np_bbox (comps : list nat) (b : body) : result body :=
 (* np.linspace(0, 1, n) *)
 Definition linspace (n : nat) : list T :=
   let step := div O (one O) (of_nat O (n - 1)) in
-  tab n (fun i => if Nat.eqb (S i) n && Nat.ltb 1 n then one O else mul O (of_nat O i) step).
+  tab n (fun i => if Nat.leb n 1 then zero O                                   (* div = 0: y * delta *)
+                  else if Nat.eqb (S i) n then one O else mul O (of_nat O i) step).
 Fixpoint first_idx (p : T -> bool) (l : list T) (i : nat) (dflt : nat) : nat :=
   match l with [] => dflt | x :: r => if p x then i else first_idx p r (S i) dflt end.
 Definition compressed (l : list cell) : list T := map fst (filter (fun c => negb (snd c)) l).
@@ -215,7 +222,19 @@ Definition interp_track (kind F NF W : nat) (steps new_steps : list T) (frames :
         let a := first_idx (fun x => leb O first_step x) new_steps 0 0 in
         let b := first_idx (fun x => ltb O last_step x) new_steps 0 (length new_steps) in
         if Nat.eqb a b then Ok (zeros_rows (length new_steps) W)
-        else Ok (zeros_rows a W ++ f (slice a b new_steps) ++ zeros_rows (length new_steps - b) W).
+        else
+          let q := slice a b new_steps in
+          (* interp1d (bounds_error) refuses a query outside [x[0], x[-1]]; the single-sample lambda does not look *)
+          if negb (Nat.eqb k 1) && existsb (fun x => ltb O x first_step || ltb O last_step x) q then Err Value
+          else Ok (zeros_rows a W ++ f q ++ zeros_rows (length new_steps - b) W).
+(* points = ma.concatenate([transposed, masked confidence], axis=3): the (F, D+1) cells of one (point, person) track *)
+Definition track_cells (F D : nat) (tr : list cell) (ctr : list T) (tp : nat) : list cell :=
+  tab (F * S D) (fun k =>
+    let f := k / S D in let j := k mod S D in
+    if Nat.eqb j D then let c := rdT ctr (tp * F + f) in (c, is0 O c) else rd tr ((tp * F + f) * D + j)).
+Definition interp_tracks (kind F NF D : nat) (steps new_steps : list T) (tr : list cell) (ctr : list T) (n : nat)
+  : result (list (list (list T))) :=
+  rmapM (fun tp => interp_track kind F NF (S D) steps new_steps (track_cells F D tr ctr tp)) (seq 0 n).
 Definition np_interpolate (kind NF : nat) (b : body) : result body :=
   let s := shape (bdat b) in
   let F := dimn s 0 in let P := dimn s 1 in let Tn := dimn s 2 in let D := dimn s 3 in
@@ -226,11 +245,7 @@ Definition np_interpolate (kind NF : nat) (b : body) : result body :=
     let new_steps := linspace NF in
     let tr := data (transpose dcell POINTS_DIMS (bdat b)) in                               (* (T,P,F,D) *)
     let ctr := data (transpose (zero O) CONF_RESHAPE (bconf b)) in                        (* (T,P,F) *)
-    (* points = ma.concatenate([transposed, masked confidence], axis=3); one track per (point, person) *)
-    let track := fun tp => tab (F * W) (fun k =>
-        let f := k / W in let j := k mod W in
-        if Nat.eqb j D then let c := rdT ctr (tp * F + f) in (c, is0 O c) else rd tr ((tp * F + f) * D + j)) in
-    match rmapM (fun tp => interp_track kind F NF W steps new_steps (track tp)) (seq 0 (Tn * P)) with
+    match interp_tracks kind F NF D steps new_steps tr ctr (Tn * P) with
     | Err e => Err e
     | Ok tracks =>
         let L := length (hd [] tracks) in
@@ -307,6 +322,17 @@ Definition t_rep_points (p1 : marr) : tensor T :=
   let t2 := transpose (zero O) [0; 1; 3; 2] (transpose (zero O) [0; 3; 2; 1] z) in
   let s := shape t2 in
   mkT [dimn s 0 * dimn s 1; dimn s 2; dimn s 3] (data t2).
+
+(* ---- the observable part of a body: confidences, missing pattern, zero-filled values ----------------------- *)
+Definition visible_body (b : body) : marr * tensor T := (visible O (bdat b), bconf b).
+Definition agree_body (b b' : body) : Prop := visible_body b = visible_body b'.
+(* two fillings of the missing slots of one pose: stored values may differ only where the confidence is 0 *)
+Definition same_pose (raw raw' conf : tensor T) : Prop :=
+  shape raw = shape raw' /\ length (data raw) = length (data raw') /\
+  forall k, is0 O (rdT (data conf) (k / lastd (shape raw))) = false -> rdT (data raw) k = rdT (data raw') k.
+(* class invariant of a pose (C12): whatever is masked has confidence 0 *)
+Definition mask_le_conf (b : body) : Prop :=
+  forall k, k < length (data (bdat b)) -> snd (rd (data (bdat b)) k) = true -> is0 O (rdT (data (bconf b)) (k / lastd (shape (bdat b)))) = true.
 
 End Ops.
 Arguments mkB {O}. Arguments bdat {O}. Arguments bconf {O}.
